@@ -19,7 +19,7 @@ RULE = ("each case: an SDMF or MDMF file with (k,N) on either side of (W+1)k<=N,
         "common server and at least one write was refused or a writer failed; distinct by whole case.")
 LEVEL_TEXT = "Exhaustive over schedule prefixes for the smallest configurations, random beyond; the clobber oracle is evaluated at the server, independent of what clients report."
 ASSUMPTIONS = ["no writer stops midway and servers are honest (faults are C47)", "exhaustive part: all choice prefixes of the stated depth, FIFO afterwards (not every interleaving of the whole run)"]
-REQUIRED_CLASSES = ["both-ok", "one-ucwe", "all-ucwe", "refused-write", "bound-holds", "bound-violated", "mdmf", "sdmf", "three-writers"]
+REQUIRED_CLASSES = ["share-lost-before-race", "both-ok", "one-ucwe", "all-ucwe", "refused-write", "bound-holds", "bound-violated", "mdmf", "sdmf", "three-writers"]
 BUDGET = {"quick": 900, "thorough": 7200}
 W = "slot_testv_and_readv_and_writev"
 
@@ -36,6 +36,7 @@ def cases(draw):
     k = draw(st.integers(1, 3))
     n = draw(st.integers(k, 10))
     return {"fmt": draw(st.sampled_from(["sdmf", "mdmf"])), "k": k, "n": n, "servers": draw(st.integers(2, 10)), "writers": w, "size": draw(st.sampled_from([0, 1, 20, 70])),
+            "lost": draw(st.lists(st.integers(0, 9), max_size=2)),
             "sched": draw(st.lists(st.integers(0, 14), max_size=draw(st.sampled_from([10, 60, 300]))))}
 
 
@@ -43,7 +44,7 @@ def exhaustive(spec):
     out = []
     for i, pre in enumerate(itertools.product(range(spec["width"]), repeat=spec["depth"])):
         for (k, n, servers) in ((1, 3, 2), (1, 2, 3)):
-            out.append({"fmt": spec["fmt"], "k": k, "n": n, "servers": servers, "writers": 2, "size": 20, "sched": list(pre), "lifo_tail": i % 2 == 1})
+            out.append({"fmt": spec["fmt"], "k": k, "n": n, "servers": servers, "writers": 2, "size": 20, "sched": list(pre), "lifo_tail": i % 2 == 1, "lost": [i] if i % 3 == 0 else []})
     return out[spec["part"]::spec["parts"]]
 
 
@@ -136,6 +137,14 @@ def run_case(case, ctx):
             ctx.fail("create-failed", "create failed: %r" % (r,))
             return
         cap = r[1].get_uri()
+        # some servers have lost their share before the race: every writer will try to put it back
+        import os as _os
+        paths = g.all_share_paths(r[1].get_storage_index())
+        for li in case.get("lost", []):
+            if len(paths) > k:
+                (s_, sh_, p_) = paths.pop(li % len(paths))
+                _os.unlink(p_)
+                classes.add("share-lost-before-race")
         nodes = [g.clients[1 + i].nodemaker.create_from_cap(cap) for i in range(nw)]
         contents = [pbytes(20 + i, 10 + i) for i in range(nw)]
         g.sched.choices, g.sched.ci = list(case["sched"]), 0
